@@ -28,14 +28,14 @@ CLAIMS = {
         "async service (extension requests with / without publication time, calendar-chain replies; a reply whose times do not fit its request fails that request only). "
         "The client's configuration slot is part of the model (configuration requests without identifier, pushed configurations, configuration payloads in "
         "authenticated PDUs; OneSlot, ConfOnlyIfConfArrived) and of every recorded TCP schedule.",
-   note="Bounds: MC N=1 / 2 requests / clock <= 1 (quick, 1.3e6 states; clock <= 2 in thorough: 4.8e6), N=2 with 2-3 requests (thorough); traces: 4-8 option groups x 25-120 schedules. The HTTP (curl multi) async client is covered on a scripted curl multi interface (constant Http, DispatchHttp, trace event HDone; defect F-C13-3 fixed, F-C13-4 recorded). Liveness: FairSpec |= EventuallyReturned (TCP and HTTP variants, N=1, 2 requests); defect F-C13-5 fixed. Configuration slot: MC with two configuration requests (4.4e5 states); defects F-C13-6, F-C13-7 fixed. Known finding F-C13-1 (premature reply accepted). Trusted: TLC, tools/ksi.py reference aggregator, harness/drv_net.c socket script.",
+   note="The request cache may be enlarged while requests are outstanding (cap / Grow). Bounds: MC N=1 / 2 requests / clock <= 1 (quick, 1.3e6 states; clock <= 2 in thorough: 4.8e6), N=2 with 2-3 requests (thorough); traces: 4-8 option groups x 25-120 schedules. The HTTP (curl multi) async client is covered on a scripted curl multi interface (constant Http, DispatchHttp, trace event HDone; defect F-C13-3 fixed, F-C13-4 recorded). Liveness: FairSpec |= EventuallyReturned (TCP and HTTP variants, N=1, 2 requests); defect F-C13-5 fixed. Configuration slot: MC with two configuration requests (4.4e5 states); defects F-C13-6, F-C13-7 fixed. Known finding F-C13-1 (premature reply accepted). Trusted: TLC, tools/ksi.py reference aggregator, harness/drv_net.c socket script.",
    technique="TLC model checking + TLC trace validation of executions of the real async service on scripted sockets"),
  "C14": dict(level="model_checking", design_ref="DESIGN.md 4/C14",
    text="TcpStream.tla has one action per system-call outcome of net_tcp_async.c dispatch() (poll, recv n/would-block/eof/reset, buffer full, send n/would-block/"
         "error, close) over offsets and lengths only; TLC checks Framing (delivered PDUs = complete PDUs in the consumed prefix, hence chunking-independent), "
         "InsideBuffer, InOrder, whole-requests-per-connection and ClosedMeansClosed for every split/partial-send/fault position with small constants; the real TCP "
         "async client runs on scripted sockets with the real 65539-byte constants and every recorded system call is validated by TLC against the same actions.",
-   note="Send timeouts are part of the stream model (ExpireUnwritten, ExpirePartial): half of the schedules run with a 3 s send timeout and a moving clock, and the directed family has the faults timeout / timeout-unwritable; defect F-C14-3 fixed. The blocking client is also driven with partial sends (first send accepts k bytes for every k; 1- and 7-byte sends). Bounds: MC MAX=3 (quick) / MAX=4 (thorough), <=3 PDUs, 2 requests, 2 connections; traces: 60/600 scenarios with PDUs 2..65539 bytes. Blocking TCP client not covered here. Two defects found and fixed (F-C14-1, F-C14-2).",
+   note="Directed receive-side plans: a reply cut after K bytes, connection ends, whole reply on the next connection. Send timeouts are part of the stream model (ExpireUnwritten, ExpirePartial): half of the schedules run with a 3 s send timeout and a moving clock, and the directed family has the faults timeout / timeout-unwritable; defect F-C14-3 fixed. The blocking client is also driven with partial sends (first send accepts k bytes for every k; 1- and 7-byte sends). Bounds: MC MAX=3 (quick) / MAX=4 (thorough), <=3 PDUs, 2 requests, 2 connections; traces: 60/600 scenarios with PDUs 2..65539 bytes. Blocking TCP client not covered here. Two defects found and fixed (F-C14-1, F-C14-2).",
    technique="TLC model checking + TLC trace validation of every wrapped system call of the real TCP async client"),
  "C16": dict(level="model_checking", design_ref="DESIGN.md 4/C16",
    text="TreeBuilder.tla models the binary-counter forest of KSI_TreeBuilder (carry on add, pre-check and refusal, close, chain extraction) with nodes "
@@ -83,7 +83,7 @@ CLAIMS = {
         "replayed under the key-based, calendar-based, publications-file, user-publication and general policies on signatures whose trust anchor matches (C04's "
         "environment: real PKI, publications file, scripted extender), where the only admissible outcomes are OK for the right hash and level, GEN-01 / GEN-04 / "
         "GEN-03, or a refusal for levels above 255.",
-   note="Legacy signatures: the document is compared with the RFC 3161 record's input hash and any level above 0 is too large. Every context is replayed through four entry points (KSI_SignatureVerifier_verify, KSI_Signature_verifyWithPolicy with arguments / with a caller's context, KSI_Signature_parseWithPolicy). AnchorPolicy.tla shows the internal rules dominate every path to OK of the five anchor policies (BrokenNeverOk). RFC3161 (legacy) signatures are not generated.",
+   note="Entry points also include KSI_verifyDataHash / KSI_verifySignature (general policy, context-level anchors) through the signature's own and a second identically configured context. Legacy signatures: the document is compared with the RFC 3161 record's input hash and any level above 0 is too large. Every context is replayed through four entry points (KSI_SignatureVerifier_verify, KSI_Signature_verifyWithPolicy with arguments / with a caller's context, KSI_Signature_parseWithPolicy). AnchorPolicy.tla shows the internal rules dominate every path to OK of the five anchor policies (BrokenNeverOk). RFC3161 (legacy) signatures are not generated.",
    technique="TLC-checked rule-tree model + exhaustive context table and bit-flip enumeration replayed into libksi"),
  "C10": dict(level="model_checking", design_ref="DESIGN.md 4/C10",
    text="Schema.tla restates the KSI schema of signatures and aggregation / extension response PDUs (v2) as data with a declarative Accept (mandatory, "
@@ -118,7 +118,7 @@ CLAIMS = {
         "over the real blocking TCP client and the real asynchronous service on scripted sockets with replies built by the independent reference aggregator; "
         "the request on the wire must carry hash, level, login id unchanged and a correct HMAC; success must coincide with the spec's result and the returned "
         "signature must be for the requested hash and level.",
-   note="Status may also be absent (read as zero by the SDK; every other condition must hold). quick: all single deviations + 400 sampled double deviations; thorough: all 1.6e3 behaviours. Also replayed over the blocking HTTP client on a scripted libcurl (HTTP status and transport errors included); the async curl_multi client and the block signer are not bound. The SDK adds the requested level to the reply's first level correction itself (so there is no 'lower level' reply).",
+   note="Honest replies list their aggregation chains in either order; blocking requests also travel over short writes; a handle is re-added after a partial-send timeout. Status may also be absent (read as zero by the SDK; every other condition must hold). quick: all single deviations + 400 sampled double deviations; thorough: all 1.6e3 behaviours. Also replayed over the blocking HTTP client on a scripted libcurl (HTTP status and transport errors included); the async curl_multi client and the block signer are not bound. The SDK adds the requested level to the reply's first level correction itself (so there is no 'lower level' reply).",
    technique="TLC model checking of the protocol + replay of all TLC behaviours into the real signing calls on scripted sockets"),
  "C08": dict(level="model_checking", design_ref="DESIGN.md 4/C08",
    text="SignExtend.tla models extending (signatures with/without calendar chain, publication or authentication record x targets head / equal / later / earlier / "
@@ -138,7 +138,7 @@ CLAIMS = {
         "deviation as every single-bit flip in that region -- and fed to the real blocking client (sign, extend, aggregator and extender config), async service and HA "
         "service on scripted sockets. Requests written by every transport for six login/key pairs (keys below, at and above the HMAC block size) and several algorithms "
         "are parsed independently and their MAC recomputed; libksi's HMAC construction is compared with RFC 2104 (Python hmac) for every algorithm of the build.",
-   note="A pushed configuration (kind aggrpush) is bound on the async and HA services. quick: every bit of every region of a signing reply on the blocking client, every 3rd payload bit for the other kinds, every 5th payload bit on async/HA; thorough: every bit everywhere. The blocking HTTP client is bound on a scripted libcurl (class Http); the async curl_multi client is not; v1 only as 'other version rejected'.",
+   note="Extender responses also run over the asynchronous and HA extending services. A pushed configuration (kind aggrpush) is bound on the async and HA services. quick: every bit of every region of a signing reply on the blocking client, every 3rd payload bit for the other kinds, every 5th payload bit on async/HA; thorough: every bit everywhere. The blocking HTTP client is bound on a scripted libcurl (class Http); the async curl_multi client is not; v1 only as 'other version rejected'.",
    technique="TLC-checked PDU authentication model + exhaustive per-bit replay of its deviation cases into the real clients; independent recomputation of request MACs"),
  "C18": dict(level="model_checking", design_ref="DESIGN.md 4/C18",
    text="PubFile.tla defines declaratively which record sequences form a publications file (Accept), the signed range (SignedRecords), when a file is Trusted "
